@@ -352,8 +352,16 @@ func verifiedMemoRule(P *Program, R *Report) {
 		}
 		R.decide(rule, kELUncomp+":index", "uncompress sets Index of event i to the compressed start index + i", idx == parseAffine("#i+<revocation.compressedEventList>.Index").String(), "got "+idx, P.Pos(fn.Pos()))
 		okParent := false
+		// the event of iteration i: addressed as Events[i], or the fresh object that iteration files under Events[i]
+		freshFiled := false
 		for _, s := range sinksOf(fn) {
-			if strings.HasSuffix(s.target, ".Events[#i].ParentHash") && strings.Contains(desc(s.val), "call:revocation.(*Event).hash(") && strings.Contains(desc(s.val), ".Events[(#i-1)]") {
+			if strings.HasSuffix(s.target, ".Events[#i]") && desc(s.val) == "new:revocation.Event" {
+				freshFiled = true
+			}
+		}
+		for _, s := range sinksOf(fn) {
+			own := strings.HasSuffix(s.target, ".Events[#i].ParentHash") || (freshFiled && s.target == "new:revocation.Event.ParentHash")
+			if own && strings.Contains(desc(s.val), "call:revocation.(*Event).hash(") && strings.Contains(desc(s.val), ".Events[(#i-1)]") {
 				okParent = true
 			}
 		}
